@@ -1,10 +1,219 @@
-"""C05 kernels regenerated from src/nfc/llcp/tco.py on every run: the two window computations."""
-I = 'int'
-KERNELS = {
-    'DlcK': ('src/nfc/llcp/tco.py', [
-        dict(name='DataLinkConnection.send_window_slots', coqname='gen_send_window_slots',
-             args={'self.send_win': I, 'self.send_cnt': I, 'self.send_ack': I}),
-        dict(name='DataLinkConnection.recv_window_slots', coqname='gen_recv_window_slots',
-             args={'self.recv_win': I, 'self.recv_cnt': I, 'self.recv_ack': I}),
-    ]),
+"""C05 kernels regenerated from src/nfc/llcp/tco.py on every run -> coq/Gen/DlcK.v
+
+send_window_slots / recv_window_slots are translated as whole functions.  The other methods of
+DataLinkConnection (send, recv, _enqueue_state_established, dequeue, sendack) and the base class
+enqueue are stateful (locks, deques, condition variables, exceptions) and outside the py2coq
+subset as whole functions.  What the C05 theorems depend on is their *sequence arithmetic and
+tests*.  This generator pulls exactly those expressions out of the methods' syntax trees, checks
+that each method still contains the expected number of them in the expected order (fail closed:
+any other shape raises, which leaves a Gen file that cannot compile), replaces the state leaves
+(`self.send_cnt`, `rcvd_pdu.nr`, `len(message)`, ...) by parameters and hands the pure expression
+to py2coq.  coq/Bridge/Dlc.v proves that every ep_* function of Model/Dlc.v is the same function
+with each of its arithmetic expressions / tests replaced by the generated kernel.
+"""
+import ast
+import os
+import sys
+
+sys.path.insert(0, os.path.dirname(os.path.abspath(__file__)))
+import py2coq  # noqa: E402
+
+I, BO = 'int', 'bool'
+Unsupported = py2coq.Unsupported
+DLC = 'DataLinkConnection.'
+
+# state leaves -> kernel parameters
+LEAVES = {
+    'self.send_cnt': 'send_cnt', 'self.send_ack': 'send_ack', 'self.send_win': 'send_win', 'self.send_miu': 'send_miu',
+    'self.recv_cnt': 'recv_cnt', 'self.recv_ack': 'recv_ack', 'self.recv_win': 'recv_win', 'self.recv_miu': 'recv_miu',
+    'self.recv_buf': 'recv_buf', 'self.recv_confs': 'recv_confs', 'self.acks_recvd': 'acks_recvd',
+    'self.send_window_slots': 'send_slots', 'self.recv_window_slots': 'recv_slots',
+    'self.state.ESTABLISHED': 'established',
+    'rcvd_pdu.ns': 'ns', 'rcvd_pdu.nr': 'nr', 'len(rcvd_pdu.data)': 'data_len', 'len(message)': 'msg_len',
+    'len(self.recv_queue)': 'rq_len',
 }
+
+
+class Subst(ast.NodeTransformer):
+    def visit(self, node):
+        if isinstance(node, ast.expr):
+            src = ast.unparse(node)
+            if src in LEAVES:
+                return ast.Name(id=LEAVES[src], ctx=ast.Load())
+        return self.generic_visit(node)
+
+
+def kernel(coqname, expr, args, test=False):
+    """expr (ast) with the state leaves replaced by parameters -> Coq definition text.
+    test=True: the expression is used for its truth value (Python `if e:`)"""
+    e = Subst().visit(ast.parse(ast.unparse(expr), mode='eval').body)
+    body = ast.unparse(e)
+    free = {n.id for n in ast.walk(e) if isinstance(n, ast.Name)}
+    want = {a for a, _ in args}
+    if free != want:
+        raise Unsupported('%s: expression %r uses %s, expected %s' % (coqname, body, sorted(free), sorted(want)))
+    if test:
+        body = 'True if %s else False' % body
+    src = 'def k(%s):\n    return %s\n' % (', '.join(a for a, _ in args), body)
+    return py2coq.Fn(ast.parse(src).body[0], dict(args), coqname=coqname).translate() + '\n'
+
+
+def nodes(fn, cls, pred=lambda n: True):
+    return sorted([n for n in ast.walk(fn) if isinstance(n, cls) and pred(n)], key=lambda n: (n.lineno, n.col_offset))
+
+
+def expect(what, got, n):
+    if len(got) != n:
+        raise Unsupported('%s: expected %d occurrence(s), found %d' % (what, n, len(got)))
+    return got
+
+
+def assigns_to(fn, target):
+    return nodes(fn, ast.Assign, lambda n: len(n.targets) == 1 and ast.unparse(n.targets[0]) == target)
+
+
+def augassigns_to(fn, target):
+    return nodes(fn, ast.AugAssign, lambda n: ast.unparse(n.target) == target)
+
+
+def aug_expr(a):
+    """x op= e  ->  the expression x op e"""
+    return ast.BinOp(left=a.target, op=a.op, right=a.value)
+
+
+def ifs_with(fn, pred):
+    return nodes(fn, (ast.If, ast.While), pred)
+
+
+def raises(stmts, what):
+    return any(isinstance(s, ast.Raise) and what in ast.unparse(s) for s in stmts)
+
+
+def before(a, b, what):
+    if not (a.lineno, a.col_offset) < (b.lineno, b.col_offset):
+        raise Unsupported('order changed: ' + what)
+
+
+def inside(inner, outer, what):
+    if not any(n is inner for n in ast.walk(outer)):
+        raise Unsupported('nesting changed: ' + what)
+
+
+def ack_block(fn, cond_if, tag, out, cond_args):
+    """the acknowledgement block guarded by `cond_if`:
+         self.recv_ack = (self.recv_ack + self.recv_confs) % 16 ; self.recv_confs = 0"""
+    upd = expect(tag + ': V(RA) update', [a for a in assigns_to(fn, 'self.recv_ack') if any(n is a for n in ast.walk(cond_if))], 1)[0]
+    rst = expect(tag + ': recv_confs reset', [a for a in assigns_to(fn, 'self.recv_confs') if any(n is a for n in ast.walk(cond_if))], 1)[0]
+    before(upd, rst, tag + ': recv_confs must be reset after V(RA) is advanced')
+    out.append(kernel('gen_dlc_%s_cond' % tag, cond_if.test, cond_args))
+    out.append(kernel('gen_dlc_%s_vra' % tag, upd.value, [('recv_ack', I), ('recv_confs', I)]))
+    out.append(kernel('gen_dlc_%s_confs' % tag, rst.value, []))
+    return upd, rst
+
+
+def generate(repo):
+    path = os.path.join(repo, 'src/nfc/llcp/tco.py')
+    tree = ast.parse(open(path).read())
+    find = lambda q: py2coq.find_function(tree, q)  # noqa: E731
+    out = [py2coq.PRELUDE % {'src': 'src/nfc/llcp/tco.py (translate/kspec_c05.py)'}]
+
+    # ---------------- the two window computations, whole
+    out.append(py2coq.Fn(find(DLC + 'send_window_slots'), {'self.send_win': I, 'self.send_cnt': I, 'self.send_ack': I},
+                         coqname='gen_send_window_slots').translate() + '\n')
+    out.append(py2coq.Fn(find(DLC + 'recv_window_slots'), {'self.recv_win': I, 'self.recv_cnt': I, 'self.recv_ack': I},
+                         coqname='gen_recv_window_slots').translate() + '\n')
+
+    # ---------------- send(): EMSGSIZE test, window test, N(S) assignment, V(S) update
+    snd = find(DLC + 'send')
+    big = expect('send: EMSGSIZE test', ifs_with(snd, lambda n: isinstance(n, ast.If) and raises(n.body, 'errno.EMSGSIZE')), 1)[0]
+    out.append(kernel('gen_dlc_send_emsgsize', big.test, [('msg_len', I), ('send_miu', I)]))
+    wh = expect('send: window loop', ifs_with(snd, lambda n: isinstance(n, ast.While)), 1)[0]
+    t = wh.test
+    if not (isinstance(t, ast.BoolOp) and isinstance(t.op, ast.And) and len(t.values) == 2
+            and ast.unparse(t.values[1]) == 'self.state.ESTABLISHED'):
+        raise Unsupported('send: window loop test shape changed')
+    if not any(isinstance(s, ast.If) and raises(s.body, 'errno.EWOULDBLOCK') for s in wh.body):
+        raise Unsupported('send: MSG_DONTWAIT no longer raises EWOULDBLOCK inside the window loop')
+    out.append(kernel('gen_dlc_send_window_full', t.values[0], [('send_slots', I)]))
+    before(big, wh, 'send: EMSGSIZE test must precede the window test')
+    ns = expect('send: N(S) assignment', assigns_to(snd, 'send_pdu.ns'), 1)[0]
+    vs = expect('send: V(S) update', assigns_to(snd, 'self.send_cnt'), 1)[0]
+    before(wh, ns, 'send: N(S) assigned after the window test')
+    before(ns, vs, 'send: N(S) must be taken before V(S) is advanced')
+    out.append(kernel('gen_dlc_send_ns', ns.value, [('send_cnt', I)]))
+    out.append(kernel('gen_dlc_send_vs', vs.value, [('send_cnt', I)]))
+
+    # ---------------- recv(): confirmation counting
+    rcv = find(DLC + 'recv')
+    inc = expect('recv: recv_confs increment', augassigns_to(rcv, 'self.recv_confs'), 1)[0]
+    ovr = expect('recv: overrun guard', ifs_with(rcv, lambda n: isinstance(n, ast.If) and raises(n.body, 'RuntimeError')), 1)[0]
+    before(inc, ovr, 'recv: overrun guard after the increment')
+    out.append(kernel('gen_dlc_recv_confs', aug_expr(inc), [('recv_confs', I)]))
+    out.append(kernel('gen_dlc_recv_overrun', ovr.test, [('recv_confs', I), ('recv_win', I)]))
+
+    # ---------------- _enqueue_state_established(): MIU / N(S) tests, acks, V(SA), V(R)
+    enq = find(DLC + '_enqueue_state_established')
+    rej = ifs_with(enq, lambda n: isinstance(n, ast.If) and any(
+        isinstance(s, ast.Assign) and ast.unparse(s.targets[0]) == 'frmr' and 'from_pdu' in ast.unparse(s.value) for s in n.body))
+    expect('enqueue: frame reject tests', rej, 2)
+    if 'flags="I"' not in ast.unparse(rej[0].body[0]).replace("'", '"') or 'flags="S"' not in ast.unparse(rej[1].body[0]).replace("'", '"'):
+        raise Unsupported('enqueue: frame reject flags changed')
+    out.append(kernel('gen_dlc_enq_oversize', rej[0].test, [('data_len', I), ('recv_miu', I)]))
+    out.append(kernel('gen_dlc_enq_ns_bad', rej[1].test, [('ns', I), ('recv_cnt', I)]))
+    acks = expect('enqueue: acks computation', assigns_to(enq, 'acks'), 1)[0]
+    out.append(kernel('gen_dlc_enq_acks', acks.value, [('nr', I), ('send_ack', I)]))
+    ifa = expect('enqueue: `if acks:`', ifs_with(enq, lambda n: isinstance(n, ast.If) and ast.unparse(n.test) == 'acks'), 1)[0]
+    out.append(kernel('gen_dlc_enq_acks_any', ifa.test, [('acks', I)], test=True))
+    cnt = expect('enqueue: acks_recvd update', augassigns_to(enq, 'self.acks_recvd'), 1)[0]
+    vsa = expect('enqueue: V(SA) update', assigns_to(enq, 'self.send_ack'), 1)[0]
+    inside(cnt, ifa, 'enqueue: acks_recvd update under `if acks`')
+    inside(vsa, ifa, 'enqueue: V(SA) update under `if acks`')
+    out.append(kernel('gen_dlc_enq_acks_recvd', aug_expr(cnt), [('acks_recvd', I), ('acks', I)]))
+    out.append(kernel('gen_dlc_enq_vsa', vsa.value, [('nr', I)]))
+    vr = expect('enqueue: V(R) update', assigns_to(enq, 'self.recv_cnt'), 1)[0]
+    out.append(kernel('gen_dlc_enq_vr', vr.value, [('recv_cnt', I)]))
+    before(rej[1], acks, 'enqueue: N(S) test before acknowledgement processing')
+    before(acks, vr, 'enqueue: acknowledgement processing before V(R) is advanced')
+    sup = expect('enqueue: hand over to the base class', nodes(enq, ast.Call, lambda n: ast.unparse(n).endswith('.enqueue(rcvd_pdu)')), 1)[0]
+    before(vr, sup, 'enqueue: V(R) advanced before the PDU is queued')
+
+    # ---------------- base class enqueue(): receive-queue room test
+    benq = find('TransmissionControlObject.enqueue')
+    room = expect('base enqueue: room test', ifs_with(benq, lambda n: isinstance(n, ast.If) and 'recv_buf' in ast.unparse(n.test)), 1)[0]
+    if not any('self.recv_queue.append(rcvd_pdu)' in ast.unparse(s) for s in room.body) or \
+            any('recv_queue.append' in ast.unparse(s) for s in room.orelse):
+        raise Unsupported('base enqueue: append / discard branches changed')
+    out.append(kernel('gen_dlc_enq_room', room.test, [('rq_len', I), ('recv_buf', I)]))
+
+    # ---------------- dequeue(): piggy-backed and necessary acknowledgement
+    deq = find(DLC + 'dequeue')
+    cond = 'self.recv_confs and self.recv_cnt != self.recv_ack'
+    pig = expect('dequeue: piggy-back condition', ifs_with(deq, lambda n: isinstance(n, ast.If) and ast.unparse(n.test) == cond), 1)[0]
+    upd, rst = ack_block(deq, pig, 'piggy', out, [('recv_confs', I), ('recv_cnt', I), ('recv_ack', I)])
+    pnr = expect('dequeue: N(R) of the I PDU', assigns_to(deq, 'send_pdu.nr'), 1)[0]
+    before(rst, pnr, 'dequeue: N(R) is taken after the piggy-back update')
+    out.append(kernel('gen_dlc_piggy_nr', pnr.value, [('recv_ack', I)]))
+    nec = expect('dequeue: necessary ack condition',
+                 ifs_with(deq, lambda n: isinstance(n, ast.If) and 'recv_window_slots' in ast.unparse(n.test)), 1)[0]
+    upd, rst = ack_block(deq, nec, 'necessary', out, [('established', BO), ('recv_confs', I), ('recv_slots', I)])
+    rets = nodes(deq, ast.Return, lambda n: n.value is not None and ast.unparse(n.value).startswith('ACK('))
+    expect('dequeue: RR/RNR returns', rets, 2)
+    for r in rets:
+        if ast.unparse(r.value) != 'ACK(self.peer, self.addr, self.recv_ack)':
+            raise Unsupported('dequeue: RR/RNR no longer carries V(RA)')
+    inside(rets[1], nec, 'dequeue: necessary RR/RNR under its condition')
+    before(rst, rets[1], 'dequeue: necessary RR/RNR built after V(RA) is advanced')
+
+    # ---------------- sendack(): voluntary acknowledgement
+    sak = find(DLC + 'sendack')
+    vol = expect('sendack: condition', ifs_with(sak, lambda n: isinstance(n, ast.If) and ast.unparse(n.test) == cond), 1)[0]
+    upd, rst = ack_block(sak, vol, 'voluntary', out, [('recv_confs', I), ('recv_cnt', I), ('recv_ack', I)])
+    rets = expect('sendack: RR/RNR return', nodes(sak, ast.Return, lambda n: n.value is not None), 1)
+    if ast.unparse(rets[0].value) != 'ACK(self.peer, self.addr, self.recv_ack)':
+        raise Unsupported('sendack: RR/RNR no longer carries V(RA)')
+    before(rst, rets[0], 'sendack: RR/RNR built after V(RA) is advanced')
+    return ''.join(out)
+
+
+generate.SOURCE = 'src/nfc/llcp/tco.py'
+KERNELS = {'DlcK': generate}
